@@ -8,7 +8,7 @@ CONSTANTS
   BindVals <- BV12
   MaxBindings = 5
   Enabled = {"Bind", "EnterScope", "ExitScope", "Call"}
-  NameOrder <- Names6
+  NameOrder <- Names8
   HookUniverse = {}
   BindApis <- AllApis
   FreshConfs = {}
